@@ -39,7 +39,7 @@ TRUSTED_BASE = [
     "harness, line protocol, numpy reference routines",
 ]
 ASSUMPTIONS = [
-    "inputs are exactly Hermitian rational matrices; purity either 1 or <= 1 - 1e-3 except in the dedicated near-pure probe",
+    "inputs are exactly Hermitian rational matrices; purity either exactly 1 or <= 1 - 1e-6",
     "negative / non-integer `keep` entries (numpy wrap-around) are outside the quantifier",
     "eigen-solver and Cholesky rounding (is_psd, sqrtm_psd, eigh) cannot be exhibited by the exact model",
 ]
@@ -146,7 +146,7 @@ def check_pair(res, drv, ax, bx, tag, exact_f=None, exact_t=None):
         res.exact_break("fidelity:error-class", input=inp, impl=f"ok {v}", model=rep["_raw"][:200])
         return
     pa, pb = purity(a), purity(b)
-    both_mixed = abs(pa - 1) > 1.00101e-5 and abs(pb - 1) > 1.00101e-5      # is_pure: np.allclose(purity, 1) with rtol 1e-5, atol 1e-8
+    both_mixed = abs(pa - 1) > 1e-9 and abs(pb - 1) > 1e-9      # is_pure: np.allclose(purity, 1, rtol=0, atol=1e-10); inputs are exactly pure or far from it
     tol = uhl_tol(a, b) if both_mixed else 1e-9
     branch = "uhlmann" if "uhlmann" in rep["_raw"].split(" ")[:2] else "pure"
     res.branch([f"fidelity:{branch}:{tag}"])
@@ -336,7 +336,8 @@ def check_infidelity(res, drv, rng, n, signs):
 
 
 def near_pure_probe(res):
-    """states whose purity lies within np.allclose's default tolerance of 1 take the pure-state shortcut although they are mixed"""
+    """a visibly mixed state (purity 1 - 4e-6) must not take the pure-state shortcut (it did while is_pure used np.allclose's default
+    relative tolerance 1e-5; repaired)"""
     f = dmf()
     eps = 2e-6
     rho = np.diag([1 - eps, eps]).astype(complex)
@@ -345,11 +346,9 @@ def near_pure_probe(res):
     v_self = float(f.fidelity(rho, rho))
     v_half = float(f.fidelity(rho, half))
     want_half = (math.sqrt((1 - eps) / 2) + math.sqrt(eps / 2)) ** 2
-    if abs(v_self - 1) > 1e-9 or abs(v_half - want_half) > 1e-9:
+    if abs(v_self - 1) > 1e-6 or abs(v_half - want_half) > 1e-6:      # Uhlmann branch on a nearly rank-deficient input: sqrt-of-rounding accuracy
         res.violation(F_NEARPURE, "a mixed state with purity within 1e-5 of 1 takes the pure-state shortcut: F(rho,rho) != 1 and F(rho, I/2) is not "
                       "the Uhlmann fidelity", input=dict(rho="diag(1-2e-6, 2e-6)"), f_self=v_self, f_half=v_half, uhlmann_half=want_half)
-    else:
-        res.known_gone.append(F_NEARPURE)
 
 
 # ---------------------------------------------------------------------------------------------------------------------- run
@@ -371,7 +370,7 @@ def _limit_known(res, keys, cap=3):
 
 def run(ctx):
     res = Result()
-    _limit_known(res, (F_D9, F_NEARPURE))
+    _limit_known(res, (F_D9,))
     res.rule = ("one evaluation = one call of partial_trace / fidelity / trace_distance / Infidelity.evaluate; non-trivial = entangled or mixed "
                 "rational input (never a product |0> ancilla); distinct by (input matrices / tableaux, arguments)")
     drv = Driver()
